@@ -1,6 +1,6 @@
 (** C02 - operators group exactly by the documented precedence and associativity.
     Part 1 (generated facts, re-checked on every run): the built-in table dumped from the impl IS the documented table. *)
-From EE Require Import Chars OpTable Names Token Ast Parser ParserSteps GroupingSmall Printer Etoks PrattFull ImplTable DocTable.
+From EE Require Import Chars OpTable Names Token Ast Parser ParserSteps GroupingSmall Printer Etoks PrattFull PrattParen ImplTable DocTable.
 Open Scope N_scope.
 
 (* every row of README.md's BinaryExpression table is registered with that precedence; every registered infix operator is a
@@ -110,3 +110,18 @@ Example C02_round_trip_example :
   parse_tokens builtin_table TmEof (etoks builtin_table t1) = Ok t1.
 Proof. vm_compute. repeat split. Qed.
 Print Assumptions C02_round_trip_example.
+
+(* PARENTHESES OVERRIDE ALL OF THIS: a parenthesised subexpression is an operand whatever the operators around it - for every
+   tree with explicit parenthesis nodes (Lemmas/PrattParen.v); e.g. `(a + b) * c` is the product of the sum and c *)
+Theorem C02_parens_override : forall tbl p, tbl_ok tbl -> wfp tbl p = true -> phgt p -> proom 0 p ->
+  parse_tokens tbl TmEof (toks p) = Ok (strip p).
+Proof. intros tbl p T. exact (parse_toks tbl T p). Qed.
+Print Assumptions C02_parens_override.
+
+Example C02_parens_override_example :
+  let a := PRef [97] in
+  let p := PBin false n_mul (PParen (PBin false n_add a a)) a in
+  wfp builtin_table p = true /\
+  parse_tokens builtin_table TmEof (toks p) = Ok (ABinary n_mul (ABinary n_add (ARef [97]) (ARef [97])) (ARef [97])).
+Proof. vm_compute. split; reflexivity. Qed.
+Print Assumptions C02_parens_override_example.
